@@ -1,6 +1,7 @@
 package rules
 
 import (
+	"os"
 	"fmt"
 	"go/constant"
 	"go/token"
@@ -601,6 +602,9 @@ func condMust(c *core.Ctx, fn *ssa.Function, from ssa.Instruction, target, event
 		at := c.P.EdgeAtom(e)
 		for _, b := range bypass {
 			if glob(b, at) {
+				if os.Getenv("SA_DEBUG") != "" {
+					fmt.Fprintf(os.Stderr, "condMust %s: bypass %q by %q\n", fname(fn), at, b)
+				}
 				return true
 			}
 		}
